@@ -59,7 +59,12 @@ def run_op(RaggedArray, p, c):
         elif src == "1d":
             a = arr(c["data"], "int64")
         else:
-            a = arr(c["data"], "int64").reshape(c["r"], c["c"])
+            if p.get("layout") == "T" and c["r"] and c["c"]:
+                # the same matrix as the transposed view of a (c, r) block: logical rows are strided in memory
+                base_ = [c["data"][i * c["c"] + j] for j in range(c["c"]) for i in range(c["r"])]
+                a = arr(base_, "int64").reshape(c["c"], c["r"]).T
+            else:
+                a = arr(c["data"], "int64").reshape(c["r"], c["c"])
         st = None if c["starts"] is None else arr(c["starts"], "int64")
         en = None if c["ends"] is None else arr(c["ends"], "int64")
         if p.get("form") == "index":
@@ -322,7 +327,7 @@ def jobs(tier, seed):
     for x, y in (("ragged", "ragged"), ("ragged", "scalar")):      # a scalar x is not "of the operands' shape": outside the claim
         out.append(dict(base, op="where", x=x, y=y))
     out += [dict(base, op="subset"), dict(base, op="maskindex")]
-    out += [dict(base, op="rslice", src="2d", form="index"), dict(base, op="rslice", src="1d", form="index"),
+    out += [dict(base, op="rslice", src="2d", layout="T"), dict(base, op="rslice", src="2d", form="index"), dict(base, op="rslice", src="1d", form="index"),
             dict(base, op="rslice", src="ragged"), dict(base, op="rslice", src="1d"), dict(base, op="rslice", src="2d"),
             dict(base, op="rslice", src="ragged", pre="rowrev", R=2 if q else 3), dict(base, op="rslice", src="ragged", pre="rowlist", R=2 if q else 3)]
     return [dict(h="C08.struct", p=p) for p in out]
